@@ -10,7 +10,7 @@ import (
 func init() {
 	ev.Register(&ev.Spec{
 		ID: "C08", Level: "exploration",
-		Rule:    "lock-step raw peer(s) against a path-bound backend (handles resolve their remembered path at every call and learn renames only from Renamed, as localfs does) with inode numbers in QID.path: (a) breadth-first over ~45 requests (walk 1-3, clone, open, create, mkdir, renameat same dir / cross dir / over existing file / over directory / whole subtree / of an ancestor, rename, unlinkat, remove, clunk, re-create) from a state with fids on nested paths; (b) PRNG sequences of 150-1500 rename-heavy requests over two connections and up to 10 fids per connection. After EVERY step every live unfenced fid is probed (Tgetattr must reach the object it was bound to and the object now at the model's path), fenced fids are judged by the model (ENOENT / EINVAL without backend call), and the server's path tree is checked for internal agreement (verif hook). Non-trivial: the sequence contains a rename/unlink with another live fid at or below the entry; distinct by (state hash, request).",
+		Rule:    "lock-step raw peer(s) against a path-bound backend (handles resolve their remembered path at every call and learn renames only from Renamed, as localfs does) with inode numbers in QID.path: (a) breadth-first over ~45 requests (walk 1-3, clone, open, create, mkdir, renameat same dir / cross dir / over existing file / over directory / whole subtree / of an ancestor, rename, unlinkat, remove, clunk, re-create) from a state with fids on nested paths; (b) PRNG sequences of 150-1500 rename-heavy requests over two connections and up to 10 fids per connection. After EVERY step every live unfenced fid is probed (Tgetattr must reach the object it was bound to and the object now at the model's path), fenced fids are judged by the model (ENOENT / EINVAL without backend call), and the server's path tree is checked for internal agreement (verif hook). (c) concurrent: 2-4 connections fire batches of pipelined renameat / Trename / unlinkat / Tremove / walk / clone / mkdir / mknod / clunk at one tree (names recycled, scheduling jitter in the backend); at every quiescent point the backend's tree is the ground truth: a fid whose object is still linked must reach exactly that object and, for a directory, its children; a fid whose object was unlinked or overwritten must be fenced without a backend call; a successful Tremove removed its own object; then lock-step Trename / Tremove through old fids must act on the current name; the server's path tree is checked by the verif hook. Non-trivial: the sequence contains a rename/unlink with another live fid at or below the entry; distinct by (state hash, request).",
 		Assume:  []string{"memfs path-bound handles behave like localfs", "model tracks fid paths by prefix rewriting as the statement describes", "getattr on fenced fids and readdir on fenced open directories are don't-care"},
 		Shards:  shards(8, 16),
 		Timeout: timeout(8*time.Minute, 60*time.Minute),
